@@ -88,12 +88,22 @@ theorem stepBy_release (c : Cfg) (contig : Bool) (n : Nat) (b : Bytes) (hd : c.d
     b.stepBy c contig n = .ok { b with index := b.index + n } := by
   simp [Bytes.stepBy, hd]
 
-/-- `try_parse_8digits` on a contiguous iterator (release) -/
+theorem adv_add (c : Cfg) (k : Comp) (n m : Nat) (b : Bytes) : adv c k m (adv c k n b) = adv c k (n + m) b := by
+  cases k <;> cases hf : c.feats.format <;> simp [adv, hf, Nat.add_assoc]
+
+/-- `step_by_unchecked(8)` followed by eight `increment_count()` is `adv … 8` -/
+theorem incCountFold_eq_adv (c : Cfg) (k : Comp) (b : Bytes) :
+    (List.range 8).foldl (fun b _ => Bytes.incCount c k b) { b with index := b.index + 8 } = adv c k 8 b := by
+  have h8 : List.range 8 = [0, 1, 2, 3, 4, 5, 6, 7] := by decide
+  rw [h8]
+  cases k <;> cases hf : c.feats.format <;> simp [List.foldl, Bytes.incCount, adv, hf]
+
+/-- `try_parse_8digits` on a contiguous iterator (release): cursor and digit count advance by 8 -/
 theorem tryParse8_cases (c : Cfg) (k : Comp) (b : Bytes) (hd : c.debug = false) :
     (tryParse8 c k b = .ok (none, b)) ∨
     (∃ bs, bs.length = 8 ∧ b.slc.drop b.index = bs ++ b.slc.drop (b.index + 8) ∧ b.index + 8 ≤ b.slc.length ∧
       is8Digits c.mantissaRadix bs = true ∧
-      tryParse8 c k b = .ok (some (val8Digits c.mantissaRadix bs), { b with index := b.index + 8 })) := by
+      tryParse8 c k b = .ok (some (val8Digits c.mantissaRadix bs), adv c k 8 b)) := by
   unfold tryParse8 peekBytes
   simp only [hd, Bool.false_and, Bool.false_eq_true, if_false]
   by_cases hcond : (c.iterContiguous k && decide (b.slc.length - b.index ≥ 8) && decide (b.index ≤ b.slc.length)) = true
@@ -104,14 +114,15 @@ theorem tryParse8_cases (c : Cfg) (k : Comp) (b : Bytes) (hd : c.debug = false) 
       refine ⟨(b.slc.drop b.index).take 8, ?_, ?_, by omega, h8, ?_⟩
       · simp only [List.length_take, List.length_drop]; omega
       · rw [← List.drop_drop, List.take_append_drop]
-      · simp [h8, stepBy_release c _ 8 b hd, bind, Except.bind, pure, Except.pure]
+      · simp only [h8, if_true, stepBy_release c _ 8 b hd, bind, Except.bind, pure, Except.pure,
+          incCountFold_eq_adv]
     · left; simp [h8, pure, Except.pure]
   · left; simp [hcond, pure, Except.pure]
 
-/-- `parse_8digits` loop: consumes `8·j` digit bytes and folds them like the digit-by-digit loop -/
+/-- `parse_8digits` loop: consumes (and counts) `8·j` digit bytes and folds them like the digit-by-digit loop -/
 theorem parse8Loop_spec (c : Cfg) (k : Comp) (hd : c.debug = false) (hr : c.mantissaRadix ≤ 10) :
     ∀ (fuel : Nat) (b : Bytes) (m : Nat), b.slc.length - b.index < fuel →
-      ∃ j m1, parse8Loop c k fuel b m = .ok (m1, { b with index := b.index + 8 * j }) ∧
+      ∃ j m1, parse8Loop c k fuel b m = .ok (m1, adv c k (8 * j) b) ∧
         (digitsPrefix c.mantissaRadix (b.slc.drop b.index)).length
           = 8 * j + (digitsPrefix c.mantissaRadix (b.slc.drop (b.index + 8 * j))).length ∧
         foldMantissa c.mantissaRadix m1 (digitsPrefix c.mantissaRadix (b.slc.drop (b.index + 8 * j)))
@@ -124,13 +135,14 @@ theorem parse8Loop_spec (c : Cfg) (k : Comp) (hd : c.debug = false) (hr : c.mant
     unfold parse8Loop
     rcases tryParse8_cases c k b hd with h | ⟨bs, hl, hdrop, hle, h8, h⟩
     · refine ⟨0, m, ?_, by simp, by simp⟩
-      simp [h, bind, Except.bind, pure, Except.pure]
-    · obtain ⟨j, m1, h1, h2, h3⟩ := ih { b with index := b.index + 8 }
-        ((m * radix8 c.mantissaRadix + val8Digits c.mantissaRadix bs) % pow2_64) (by simp only; omega)
-      simp only at h1 h2 h3
+      simp [h, bind, Except.bind, pure, Except.pure, adv_zero]
+    · obtain ⟨j, m1, h1, h2, h3⟩ := ih (adv c k 8 b)
+        ((m * radix8 c.mantissaRadix + val8Digits c.mantissaRadix bs) % pow2_64)
+        (by simp only [adv_slc, adv_index]; omega)
+      simp only [adv_slc, adv_index, adv_add] at h1 h2 h3
       refine ⟨j + 1, m1, ?_, ?_, ?_⟩
       · simp only [h, bind, Except.bind, h1]
-        have : b.index + 8 + 8 * j = b.index + 8 * (j + 1) := by omega
+        have : 8 + 8 * j = 8 * (j + 1) := by omega
         rw [this]
       · have : b.index + 8 * (j + 1) = b.index + 8 + 8 * j := by omega
         rw [this, hdrop, digitsPrefix_is8 _ hr _ _ h8, List.length_append, List.length_map, hl, h2]
